@@ -21,7 +21,9 @@ func init() { vh.Register("C17", runC17) }
 
 var entNames = []string{"Foo", "foo", "fooBar", "FooBar", "foo_bar", "Foo_Bar", "FOO", "FooS", "F", "f", "ABc", "Foo2", "foo2bar",
 	"A1", "fooBAR", "FOOBar", "x", "a_b_c", "Widget", "userID", "HTTPServer", "Order_v2", "orderLine", "Thing1", "aB", "Ab", "AB", "iOS",
-	"foo_", "foo__bar", "FooEvent", "FooState", "State", "Keys", "fooKeys", "X9Y", "x9", "Z_", "camelCaseName", "snake_case_name", "SCREAMING_NAME"}
+	"foo_", "foo__bar", "FooEvent", "FooState", "State", "Keys", "fooKeys", "X9Y", "x9", "Z_", "camelCaseName", "snake_case_name", "SCREAMING_NAME",
+	// the entity's own property in the Get / List responses sits next to events / page
+	"Page", "Events", "Query"}
 
 var pkgNames = []string{"foo.v1", "foo.v1", "bar.baz.v2", "a.v1", "test.deep.pkg.v3"}
 
@@ -112,11 +114,73 @@ func rawKey(s string) string   { return "r:" + s }
 func camelKey(s string) string { return "c:" + strcase.ToCamel(s) }
 func lowerKey(s string) string { return "l:" + strings.ToLower(strings.ReplaceAll(s, "_", "")) }
 
+// message-typed scalars of other packages: j5s word, full type name, (j5.ext.v1.field) kind as compiled
+var extTypes = []struct{ j5, full, kind string }{
+	{"timestamp", "google.protobuf.Timestamp", "timestamp"},
+	{"date", "j5.types.date.v1.Date", ""},
+	{"decimal", "j5.types.decimal.v1.Decimal", ""},
+	{"any", "j5.types.any.v1.Any", "any"},
+}
+
 func genScalarField(r *vh.Rand, name string) uField {
 	t := vh.Pick(r, scalars)
 	u := uField{Name: name, J5Type: t.j5, PType: t.ptype, J5Kind: t.kind, Required: r.Chance(25), Bang: r.Bool(), SayFalse: r.Chance(20)}
+	if r.Chance(18) {
+		x := vh.Pick(r, extTypes)
+		u.J5Type, u.PType, u.J5Kind, u.Ext = x.j5, 11, x.kind, x.full
+	}
 	if !u.Required && r.Chance(15) {
 		u.Optional = true
+	}
+	return u
+}
+
+// genAnyField: every field type of the schema language that is not a reference: scalars, the
+// message-typed scalars, keys, and arrays / maps of those.
+func genAnyField(r *vh.Rand, name string) uField {
+	u := genScalarField(r, name)
+	isKey := r.Chance(12)
+	if isKey {
+		u = genKeyTyped(r, name)
+	}
+	if r.Chance(22) {
+		if isKey {
+			// the item type key:<format>: not a schema.key of the field itself
+			u.J5Type = vh.Pick(r, []string{"key", "key:id62", "key:uuid"})
+			u.Key, u.KeyFmt = false, ""
+		}
+		u.Container = vh.Pick(r, []string{"array", "array", "map"})
+		// an optional array / map compiles to a proto3-optional repeated field (known finding)
+		u.Optional = !u.Required && r.Chance(2)
+	}
+	return u
+}
+
+// genInline: a field whose type is an anonymous schema defined in place (nested in the message)
+func genInline(r *vh.Rand, name string) uField {
+	u := uField{Name: name, Required: r.Chance(20), Bang: r.Bool(), PType: 11}
+	simple := func(n int) []uField {
+		ns := nameSet{}
+		var out []uField
+		for i := 0; i < n; i++ {
+			f := genScalarField(r, ns.fresh(func() string { return genIdent(r, r.Intn(2)) }, snakeKey, lowerKey))
+			out = append(out, f)
+		}
+		return out
+	}
+	switch r.Intn(3) {
+	case 0:
+		u.Inline, u.J5Kind = "object", "object"
+		u.InFields = simple(r.Range(0, 3))
+	case 1:
+		u.Inline, u.J5Kind = "oneof", "oneof"
+		for _, f := range simple(r.Range(1, 3)) {
+			f.Required, f.Optional, f.SayFalse = false, false, false
+			u.InFields = append(u.InFields, f)
+		}
+	default:
+		u.Inline, u.J5Kind, u.PType = "enum", "enum", 14
+		u.InOptions = vh.Pick(r, [][]string{{"A", "B"}, {"LOW", "MID", "HIGH"}, {"UNSPECIFIED", "ON"}, {"X"}})
 	}
 	return u
 }
@@ -137,10 +201,13 @@ func genFields(r *vh.Rand, lo, hi int, reserved ...string) []uField {
 	var out []uField
 	for k := r.Range(lo, hi); k > 0; k-- {
 		name := ns.fresh(func() string { return genIdent(r, r.Intn(2)) }, snakeKey, lowerKey)
-		if r.Chance(20) {
+		switch {
+		case r.Chance(20):
 			out = append(out, genKeyTyped(r, name))
-		} else {
-			out = append(out, genScalarField(r, name))
+		case r.Chance(7):
+			out = append(out, genInline(r, name))
+		default:
+			out = append(out, genAnyField(r, name))
 		}
 	}
 	return out
@@ -167,10 +234,17 @@ func genEntityOpt(r *vh.Rand, second bool, forcedName string) *entityDecl {
 		d.BaseURL = vh.Pick(r, []string{"x/y", "custom", "a/b/c_d", "v1/things", "/rooted/", "dbl//slash", "trail/"})
 	}
 	// keys
-	ks := nameSet{snakeKey("page"): true, snakeKey("query"): true, snakeKey("events"): true}
+	// key names are free (the property quantifies over keys of any name): also the names the
+	// expansion itself uses next to the keys (page / query in the List and Events requests,
+	// metadata / data / status / event next to the flattened keys in State and Event)
+	ks := nameSet{}
 	nKeys := r.Range(1, 4)
+	reservedKey := !second && r.Chance(5)
 	for i := 0; i < nKeys; i++ {
 		name := ks.fresh(func() string {
+			if reservedKey && i == 0 {
+				return vh.Pick(r, []string{"page", "query", "Page", "events", "metadata", "data", "status", "keys", "event"})
+			}
 			if r.Chance(40) {
 				return vh.Pick(r, []string{"fooId", "foo_id", "id", "accountId", "tenant_id", "orgID", "k2", "parentId", "shard"})
 			}
@@ -197,7 +271,7 @@ func genEntityOpt(r *vh.Rand, second bool, forcedName string) *entityDecl {
 				k.Tenant = ptr("owner")
 			}
 		} else {
-			k.uField = genScalarField(r, name)
+			k.uField = genAnyField(r, name)
 		}
 		k.Shard = r.Chance(25)
 		d.Keys = append(d.Keys, k)
@@ -213,6 +287,19 @@ func genEntityOpt(r *vh.Rand, second bool, forcedName string) *entityDecl {
 			return vh.Pick(r, []string{"Active", "active", "inProgress", "Done2", "a_b", "Draft", "onHold"})
 		}, rawKey, lowerKey))
 	}
+	// two statuses that differ only in case: distinct symbols for the compiler, a conflict for
+	// protodesc.NewFiles (open enum, names compared after prefix trimming in PascalCase): known finding
+	if !second && r.Chance(3) {
+		base := d.Status[r.Intn(len(d.Status))]
+		variant := strings.ToUpper(base[:1]) + strings.ToLower(base[1:])
+		if variant == base {
+			variant = strings.ToUpper(base)
+		}
+		if variant != base && !ss[rawKey(variant)] {
+			ss[rawKey(variant)] = true
+			d.Status = append(d.Status, variant)
+		}
+	}
 	// edge cases of visitEnumNode/addValue: a first status ending in UNSPECIFIED takes slot 0,
 	// a status that already carries the prefix keeps its name
 	if r.Chance(8) {
@@ -224,10 +311,25 @@ func genEntityOpt(r *vh.Rand, second bool, forcedName string) *entityDecl {
 			d.Status = append(d.Status, pre)
 		}
 	}
+	// explicit option numbers: the parser accepts `status X { number = 5 }`; visitEnumNode numbers by
+	// POSITION, so a declared number must not show in the enum (only a first status that ends in
+	// UNSPECIFIED and declares a number loses slot 0: malformed stream)
+	if r.Chance(25) {
+		d.StatusNum = make([]int, len(d.Status))
+		for i := range d.Status {
+			if r.Chance(60) && !(i == 0 && strings.HasSuffix(d.Status[0], "UNSPECIFIED")) {
+				d.StatusNum[i] = vh.Pick(r, []int{1, 2, 3, 5, 7, 9, 12, 40})
+			}
+		}
+	}
 	// events
 	es := nameSet{}
 	for k := r.Range(0, 3); k > 0; k-- {
 		name := es.fresh(func() string {
+			if !second && r.Chance(1) {
+				// its oneof option "type" sits next to the proto oneof "type" of the wrapper
+				return "Type"
+			}
 			if r.Chance(70) {
 				return vh.Pick(r, []string{"Create", "Update", "Archive", "Delete", "Created", "DoThing", "Renamed", "V2Migrated"})
 			}
@@ -270,7 +372,7 @@ func genEntityOpt(r *vh.Rand, second bool, forcedName string) *entityDecl {
 			}
 			var parts []string
 			for _, f := range m.Request {
-				if r.Chance(50) {
+				if f.Container == "" && f.Ext == "" && f.Inline == "" && r.Chance(50) {
 					if r.Chance(40) {
 						parts = append(parts, vh.Pick(r, []string{"do", "items", "sub_path", "x"}))
 					}
@@ -306,7 +408,12 @@ func genEntityOpt(r *vh.Rand, second bool, forcedName string) *entityDecl {
 			sums[rawKey("")] = true
 			sums[camelKey("Summary")] = true
 		}
-		d.Summaries = append(d.Summaries, eSummary{Name: name, Fields: genFields(r, 0, 3, "upsert")})
+		sm := eSummary{Name: name, Fields: genFields(r, 0, 3, "upsert")}
+		if !second && r.Chance(4) {
+			// a summary field named like the metadata field the expansion prepends
+			sm.Fields = append(sm.Fields, genScalarField(r, "upsert"))
+		}
+		d.Summaries = append(d.Summaries, sm)
 	}
 	// objects declared in the entity block, and references to them (or to the entity's own
 	// generated schemas) from data / event / command / summary fields
@@ -324,12 +431,57 @@ func genEntityOpt(r *vh.Rand, second bool, forcedName string) *entityDecl {
 			}
 			d.Schemas = append(d.Schemas, sc)
 		}
+		// an enum and a oneof declared in the entity block (the other two arms of RangeNestedSchemas)
+		var enumName, oneofName string
+		if r.Chance(50) {
+			enumName = vh.Pick(r, []string{"Kind", "Colour", "level_type", "Mode"}) + d.schemaSuffix()
+			opts := [][]string{{"A", "B"}, {"RED", "GREEN", "DARK_BLUE"}, {"LOW"}, {"UNSPECIFIED", "ON", "OFF"}}
+			en := eSchema{Kind: 2, Name: enumName, Options: vh.Pick(r, opts)}
+			if r.Chance(30) {
+				en.OptionNum = make([]int, len(en.Options))
+				for i := 1; i < len(en.Options); i++ {
+					en.OptionNum[i] = vh.Pick(r, []int{1, 4, 6, 9})
+				}
+			}
+			d.Schemas = append(d.Schemas, en)
+		}
+		if r.Chance(40) {
+			oneofName = vh.Pick(r, []string{"Choice", "Payload", "Either"}) + d.schemaSuffix()
+			var opts []uField
+			for _, f := range genFields(r, 1, 3) {
+				f.Required, f.Optional, f.SayFalse, f.Container = false, false, false, ""
+				if f.Inline != "" {
+					f = genScalarField(r, f.Name)
+					f.Required, f.Optional, f.SayFalse = false, false, false
+				}
+				opts = append(opts, f)
+			}
+			if pos := r.Intn(len(d.Schemas) + 1); true {
+				sc := eSchema{Kind: 1, Name: oneofName, Fields: opts}
+				d.Schemas = append(d.Schemas[:pos], append([]eSchema{sc}, d.Schemas[pos:]...)...)
+			}
+		}
 		targets := []string{strcase.ToCamel(d.Name) + "Keys", strcase.ToCamel(d.Name) + "Data"}
 		for _, sc := range d.Schemas {
-			targets = append(targets, sc.Name, sc.Name)
+			if sc.Kind == 0 {
+				targets = append(targets, sc.Name, sc.Name)
+			}
 		}
 		ref := func(name string) uField {
-			return uField{Name: name, Obj: vh.Pick(r, targets), PType: 11, J5Kind: "object", Required: r.Chance(20), Bang: r.Bool()}
+			u := uField{Name: name, Obj: vh.Pick(r, targets), PType: 11, J5Kind: "object", Required: r.Chance(20), Bang: r.Bool()}
+			switch {
+			case enumName != "" && r.Chance(25):
+				u.Obj, u.RefKind, u.PType, u.J5Kind = enumName, "enum", 14, "enum"
+			case oneofName != "" && r.Chance(25):
+				u.Obj, u.RefKind, u.J5Kind = oneofName, "oneof", "oneof"
+			}
+			if r.Chance(35) {
+				u.Container = "array"
+				if u.RefKind != "oneof" && r.Chance(40) {
+					u.Container = "map"
+				}
+			}
+			return u
 		}
 		if r.Chance(60) {
 			d.Data = append(d.Data, ref("refField"))
@@ -403,50 +555,158 @@ func genSecond(r *vh.Rand, first *entityDecl) *entityDecl {
 	}
 }
 
-// malformed stream: declarations entityNode.run rejects
-func genMalformed(r *vh.Rand) (*entityDecl, string) {
-	d := genEntity(r)
-	if r.Chance(30) {
-		// buildProperty: a field cannot be both required (or a primary key) and optional
-		switch {
-		case len(d.Data) > 0 && r.Bool():
-			d.Data[0].Required, d.Data[0].Optional = true, true
-		case len(d.Events) > 0 && len(d.Events[0].Fields) > 0 && r.Bool():
-			d.Events[0].Fields[0].Required, d.Events[0].Fields[0].Optional = true, true
-		default:
-			k := &d.Keys[r.Intn(len(d.Keys))]
-			if !k.Key {
-				k.uField = genKeyTyped(r, k.Name)
-			}
-			k.Primary, k.Foreign, k.Optional, k.Required = true, nil, true, false
+// malformed stream: declarations the real compiler rejects, one fault per declaration, and the error
+// class it must report (compared with the model's error class in c17_check).
+// 1 unknown default status, 2 duplicate summary, 3 type not found, 4 optional+required,
+// 5 path parameter that is not a request field, 6 link error "symbol already defined",
+// 7 parser validation "value is required" (entity without status).
+type negClass struct {
+	kind string
+	errc int
+	make func(r *vh.Rand, d *entityDecl)
+}
+
+func plainString(name string) uField {
+	return uField{Name: name, J5Type: "string", PType: 9, J5Kind: "string"}
+}
+
+func emptyMethod(name, path string) eMethod {
+	return eMethod{Name: name, Verb: 2, Path: path, Response: nil}
+}
+
+var negClasses = []negClass{
+	// buildProperty: a field cannot be both required and optional ...
+	{"optional-required-data", 4, func(r *vh.Rand, d *entityDecl) {
+		f := genScalarField(r, "bothWays")
+		f.Required, f.Optional = true, true
+		d.Data = append(d.Data, f)
+	}},
+	{"optional-required-event-field", 4, func(r *vh.Rand, d *entityDecl) {
+		f := genScalarField(r, "bothWays")
+		f.Required, f.Optional = true, true
+		d.Events = append(d.Events, eEvent{Name: "WithBoth", Fields: []uField{f}})
+	}},
+	// ... and a PRIMARY key is required, so `key x ? key:id62 { primary = true }` is the same clash
+	{"primary-optional-key", 4, func(r *vh.Rand, d *entityDecl) {
+		k := eKey{uField: genKeyTyped(r, "optPrimary")}
+		k.Primary, k.Foreign, k.Optional, k.Required, k.Bang = true, nil, true, false, r.Bool()
+		k.Shard = r.Bool()
+		if r.Bool() {
+			d.Keys = append(d.Keys, k)
+		} else {
+			d.Keys = append([]eKey{k}, d.Keys...)
 		}
-		return d, "optional-required"
-	}
-	if r.Chance(20) {
+	}},
+	{"dangling-reference", 3, func(r *vh.Rand, d *entityDecl) {
 		// an object reference that names nothing: resolveType fails
 		d.Data = append(d.Data, uField{Name: "dangling", Obj: vh.Pick(r, []string{"NoSuchType", strcase.ToCamel(d.Name) + "Stat", "Addres"}), PType: 11, J5Kind: "object"})
-		return d, "dangling-reference"
-	}
-	if r.Chance(25) {
+	}},
+	{"missing-path-field", 5, func(r *vh.Rand, d *entityDecl) {
 		// visitServiceMethodNode: a ":name" path part must be a request field
-		m := eMethod{Name: "MissingParam", Verb: 2, Path: vh.Pick(r, []string{":nope", "x/:nope/y", ":a/:nope"}), Request: []uField{genScalarField(r, "a")}}
+		m := eMethod{Name: "MissingParam", Verb: 2, Path: vh.Pick(r, []string{":nope", "x/:nope/y", ":a/:nope"}), Request: []uField{plainString("a")}}
 		if len(d.Commands) == 0 {
 			d.Commands = append(d.Commands, eCommand{})
 		}
 		c := &d.Commands[r.Intn(len(d.Commands))]
 		c.Methods = append(c.Methods, m)
-		return d, "missing-path-field"
-	}
-	if r.Bool() {
+	}},
+	{"unknown-default-status", 1, func(r *vh.Rand, d *entityDecl) {
 		if d.Query == nil {
 			d.Query = &eQuery{}
 		}
 		d.Query.DefaultStatus = append(d.Query.DefaultStatus, "NO_SUCH_STATUS")
-		return d, "unknown-default-status"
-	}
-	n := vh.Pick(r, []string{"Small", "", "dup"})
-	d.Summaries = []eSummary{{Name: n, Fields: genFields(r, 0, 2, "upsert")}, {Name: n, Fields: genFields(r, 0, 2, "upsert")}}
-	return d, "duplicate-summary"
+	}},
+	{"duplicate-summary", 2, func(r *vh.Rand, d *entityDecl) {
+		n := vh.Pick(r, []string{"Small", "", "dup"})
+		d.Summaries = []eSummary{{Name: n, Fields: genFields(r, 0, 2, "upsert")}, {Name: n, Fields: genFields(r, 0, 2, "upsert")}}
+	}},
+	// ---- declarations whose expansion defines a symbol twice: the linker rejects them
+	{"dup-key", 6, func(r *vh.Rand, d *entityDecl) {
+		k := d.Keys[r.Intn(len(d.Keys))]
+		k.Primary, k.Shard = false, false
+		d.Keys = append(d.Keys, k)
+	}},
+	{"dup-key-snake", 6, func(r *vh.Rand, d *entityDecl) {
+		// different spellings, one proto field name
+		pair := vh.Pick(r, [][2]string{{"dupId", "dup_id"}, {"dup1", "dup_1"}, {"DupKey", "dupKey"}})
+		a, b := genKeyTyped(r, pair[0]), genKeyTyped(r, pair[1])
+		a.Optional, b.Optional = false, false
+		d.Keys = append(d.Keys, eKey{uField: a}, eKey{uField: b})
+	}},
+	{"dup-data", 6, func(r *vh.Rand, d *entityDecl) {
+		d.Data = append(d.Data, plainString("twice"), plainString(vh.Pick(r, []string{"twice", "Twice"})))
+	}},
+	{"dup-status", 6, func(r *vh.Rand, d *entityDecl) {
+		d.Status = append(d.Status, d.Status[r.Intn(len(d.Status))])
+	}},
+	{"status-unspecified-not-first", 6, func(r *vh.Rand, d *entityDecl) {
+		// only a FIRST option ending in UNSPECIFIED takes slot 0; later it repeats the generated zero value
+		d.Status = []string{vh.Pick(r, []string{"ACTIVE", "NEW"}), "DONE", "UNSPECIFIED"}
+		d.StatusNum = nil
+		if d.Query != nil {
+			d.Query.DefaultStatus = nil
+		}
+	}},
+	{"unspecified-first-with-number", 6, func(r *vh.Rand, d *entityDecl) {
+		// a first status ending in UNSPECIFIED takes slot 0 only when it declares no number
+		d.Status = []string{"UNSPECIFIED", "ACTIVE", "DONE"}
+		d.StatusNum = []int{vh.Pick(r, []int{1, 3, 7}), 0, 0}
+		if d.Query != nil {
+			d.Query.DefaultStatus = nil
+		}
+	}},
+	{"dup-event", 6, func(r *vh.Rand, d *entityDecl) {
+		d.Events = append(d.Events, eEvent{Name: "Twice"}, eEvent{Name: "Twice"})
+	}},
+	{"event-option-clash", 6, func(r *vh.Rand, d *entityDecl) {
+		// two events whose oneof options (ToLowerCamel, then ToSnake for the proto field) coincide
+		d.Events = append(d.Events, eEvent{Name: "DoThing"}, eEvent{Name: vh.Pick(r, []string{"doThing", "Do_thing", "DoTHING"})})
+	}},
+	{"event-lower-initial", 6, func(r *vh.Rand, d *entityDecl) {
+		// a one-word lower-case event: the option ToLowerCamel(name) and the nested message share the name
+		d.Events = append(d.Events, eEvent{Name: vh.Pick(r, []string{"create", "archived", "x"})})
+	}},
+	{"dup-event-field", 6, func(r *vh.Rand, d *entityDecl) {
+		d.Events = append(d.Events, eEvent{Name: "WithTwins", Fields: []uField{plainString("twin"), plainString("twin")}})
+	}},
+	{"schema-named-like-component", 6, func(r *vh.Rand, d *entityDecl) {
+		c := strcase.ToCamel(d.Name)
+		switch r.Intn(3) {
+		case 0:
+			d.Schemas = append(d.Schemas, eSchema{Name: c + vh.Pick(r, []string{"Keys", "Data", "State", "Event", "EventType"})})
+		case 1:
+			d.Schemas = append(d.Schemas, eSchema{Kind: 2, Name: c + "Status", Options: []string{"A"}})
+		default:
+			d.Schemas = append(d.Schemas, eSchema{Name: "SameName"}, eSchema{Kind: 1, Name: "SameName", Fields: []uField{plainString("a")}})
+		}
+	}},
+	{"summary-named-like-publish", 6, func(r *vh.Rand, d *entityDecl) {
+		d.Summaries = []eSummary{{Name: vh.Pick(r, []string{"Publish", "Event", "publish"})}}
+	}},
+	{"method-named-like-query", 6, func(r *vh.Rand, d *entityDecl) {
+		q := strcase.ToCamel(strcase.ToSnake(d.Name))
+		d.Commands = append(d.Commands, eCommand{Name: ptr("Clash"), Methods: []eMethod{emptyMethod(q+vh.Pick(r, []string{"Get", "List", "Events"}), "clash")}})
+	}},
+	{"two-default-commands", 6, func(r *vh.Rand, d *entityDecl) {
+		d.Commands = []eCommand{{}, {}}
+	}},
+	{"dup-method", 6, func(r *vh.Rand, d *entityDecl) {
+		d.Commands = append(d.Commands, eCommand{Name: ptr("Twins"), Methods: []eMethod{emptyMethod("SameOp", "a"), emptyMethod("SameOp", "b")}})
+	}},
+	{"no-status", 7, func(r *vh.Rand, d *entityDecl) {
+		d.Status, d.StatusNum = nil, nil
+		if d.Query != nil {
+			d.Query.DefaultStatus = nil
+		}
+	}},
+}
+
+func genMalformed(r *vh.Rand, i int) (*entityDecl, negClass) {
+	c := negClasses[i%len(negClasses)]
+	d := genEntityOpt(r, true, "") // `second`: no reserved key / summary-field names in this stream
+	d.second = false
+	c.make(r, d)
+	return d, c
 }
 
 // ---- running the real compiler ----------------------------------------------------------
@@ -484,11 +744,11 @@ const c17Shard = 25
 func runC17(cfg *vh.Config) error {
 	log.SetOutput(io.Discard) // the compiler logs every walker error
 	res := vh.NewResult("C17", cfg.Seed)
-	res.Rule = "entity declarations: name casings (fixed list incl. trailing capitals/acronyms/digits/underscores + generated identifiers), 1-4 keys (key-typed id62/uuid/plain with primary/tenant, or scalar) x shard flag x required, 0-4 data fields over 9 scalar types + keys, 1-4 statuses (+ the UNSPECIFIED-first and prefixed-name edge cases), foreign keys, optional fields, methods without response, objects declared in the entity block and object references to them / to the generated Keys and Data, 0-3 events with 0-3 fields, 0-2 command services (default/named, base path (also with leading/trailing/double slashes, cleaned by path.Join), own options block with audience/default auth, 0-2 methods with path parameters), boolean attributes also spelled out as false (primary/shardKey/required/optional/eventsInGet = false), 0-2 summaries (default/named), optional query settings; 20% of the files declare two entities; malformed: unknown default status, duplicate summary, optional+required field, path parameter that is not a request field, dangling object reference; plus the strcase stream; non-trivial = distinct declaration text"
+	res.Rule = "entity declarations: name casings (fixed list incl. trailing capitals/acronyms/digits/underscores + generated identifiers), 1-4 keys (key-typed id62/uuid/plain with primary/tenant/foreign, or ANY other field type) x shard flag x required; keys/data/event/request/response/summary/object fields over every field type of the schema language: 9 scalars, timestamp/date/decimal/any, bytes, keys, object/oneof/enum references, arrays and maps of all of these (3-4% optional arrays/maps: known finding); 1-4 statuses (+ UNSPECIFIED-first and prefixed-name edge cases), 0-3 events, 0-2 command services (default/named, base paths with leading/trailing/double slashes, options blocks, 0-2 methods with path parameters), boolean attributes also spelled out as false, 0-2 summaries, objects/oneofs/enums declared in the entity block, optional query settings; names the expansion itself adds are NOT avoided (keys page/query/metadata/data/status/event, summary field upsert, event Type: known findings); 20% of the files declare two entities; zero-keys (outside the quantifier, accepted); malformed stream: 21 fault classes round-robin (walker errors, conversion errors, parser validation, 15 duplicate-symbol classes, a quarter of them in the second entity of a file), acceptance compared both ways and the error class compared; plus the strcase stream; non-trivial = distinct declaration text"
 	cf := &vh.CasesFile{
-		Header: "From Coq Require Import String List NArith.\nFrom J5V.lib Require Import Outcome.\nFrom J5V.model Require Import Entity EntityCorr.",
+		Header: "From Coq Require Import String List NArith.\nFrom J5V.lib Require Import Outcome.\nFrom J5V.model Require Import Entity EntityCorr.\nFrom J5V.proofs Require Import EntitySpecCorr.",
 		Type:   "c17case",
-		Check:  "c17_check",
+		Check:  "c17_check_adm",
 	}
 	distinct := vh.Distinct{}
 	caseNo := 0
@@ -496,13 +756,14 @@ func runC17(cfg *vh.Config) error {
 
 	var decls []*fileDecl
 	var kinds []string
+	wantErr := map[int]int{} // index -> error class the malformed declaration must be rejected with
 	// every fixed name once with a small fixed shape, then random declarations
 	for _, n := range entNames {
 		d := genEntityOpt(r.Fork("fixed:"+n), false, n)
 		decls = append(decls, &fileDecl{Ents: []*entityDecl{d}})
 		kinds = append(kinds, "fixed-name")
 	}
-	nGen := cfg.Scale(160, 4000)
+	nGen := cfg.Scale(130, 3000)
 	for i := 0; i < nGen; i++ {
 		d := genEntity(r)
 		if r.Chance(20) {
@@ -513,11 +774,57 @@ func runC17(cfg *vh.Config) error {
 			kinds = append(kinds, "generated")
 		}
 	}
-	nBad := cfg.Scale(24, 300)
-	for i := 0; i < nBad; i++ {
-		d, k := genMalformed(r)
+	// out of the quantifier (1..n keys) but accepted by the compiler and the model alike
+	for i := 0; i < cfg.Scale(2, 20); i++ {
+		d := genEntityOpt(r, true, "")
+		d.second = false
+		d.Keys = nil
 		decls = append(decls, &fileDecl{Ents: []*entityDecl{d}})
-		kinds = append(kinds, k)
+		kinds = append(kinds, "zero-keys")
+	}
+	// outside the quantifier too: list-request settings in the query block. The real compiler PANICS
+	// (SetExtension of (j5.list.v1.list_request) on MethodOptions: cmpb's known C07 finding) unless a
+	// walker error comes first; the model returns Panic in exactly those cases
+	for i := 0; i < cfg.Scale(4, 40); i++ {
+		d := genEntityOpt(r, true, "")
+		d.second = false
+		if d.Query == nil {
+			d.Query = &eQuery{}
+		}
+		d.Query.ListRequest = 1 + i%2
+		kind := "list-request-settings"
+		switch i % 4 {
+		case 2:
+			d.Query.DefaultStatus = append(d.Query.DefaultStatus, "NO_SUCH_STATUS")
+			wantErr[len(decls)] = 1
+			kind = "list-request-settings+unknown-default-status"
+		case 3:
+			d.Data = append(d.Data, uField{Name: "dangling", Obj: "NoSuchType", PType: 11, J5Kind: "object"})
+		}
+		decls = append(decls, &fileDecl{Ents: []*entityDecl{d}})
+		kinds = append(kinds, kind)
+	}
+	nBad := cfg.Scale(2*len(negClasses), 14*len(negClasses))
+	for i := 0; i < nBad; i++ {
+		d, c := genMalformed(r, i)
+		wantErr[len(decls)] = c.errc
+		if c.errc == 6 && r.Chance(25) {
+			// the link step sees the whole file: the fault in the second entity of a file
+			first := genEntityOpt(r, false, "")
+			clash := func() bool {
+				a, b := squash(first.Name), squash(d.Name)
+				return a == "" || strings.HasPrefix(a, b) || strings.HasPrefix(b, a)
+			}
+			for first.pathKeyReserved() || first.summaryUpsert() || first.eventNamedType() || first.namedLikeResponseField() || clash() {
+				first = genEntityOpt(r, false, "")
+			}
+			first.Commands, first.Summaries = nil, nil
+			first.Pkg = d.Pkg
+			decls = append(decls, &fileDecl{Ents: []*entityDecl{first, d}})
+		} else {
+			decls = append(decls, &fileDecl{Ents: []*entityDecl{d}})
+		}
+		kinds = append(kinds, c.kind)
 	}
 
 	for i, d := range decls {
@@ -529,31 +836,54 @@ func runC17(cfg *vh.Config) error {
 		}
 		out := compileEntity(d)
 		in := map[string]any{"j5s": text}
-		malformed := kinds[i] == "unknown-default-status" || kinds[i] == "duplicate-summary" || kinds[i] == "optional-required" || kinds[i] == "missing-path-field" || kinds[i] == "dangling-reference"
+		wantClass, malformed := wantErr[i]
 		if out.panicked != nil {
-			res.Fail(vh.Failure{Case: caseNo, Stream: "entity", Sig: "C17 compiler panic on entity declaration", Clause: "entity expansion is total", Input: in, Got: fmt.Sprint(out.panicked)})
+			res.Count("compiler_panic")
+			if !strings.HasPrefix(kinds[i], "list-request-settings") {
+				res.Fail(vh.Failure{Case: caseNo, Stream: "entity", Sig: "C17 compiler panic on entity declaration", Clause: "entity expansion is total", Input: in, Got: fmt.Sprint(out.panicked)})
+			}
+			// the model must predict the panic (c17_check: Panic <-> errc 100)
+			cf.Terms = append(cf.Terms, fmt.Sprintf("EC %s false 100 [] false []", d.coq()))
+			res.Cases = append(res.Cases, vh.CaseRec{Case: caseNo, Stream: "entity", Input: in, Impl: map[string]any{"ok": false, "panic": fmt.Sprint(out.panicked)}})
 			caseNo++
 			continue
 		}
 		ok := out.err == nil
+		errc := 0
 		var lines []line
+		inQuant := !malformed && kinds[i] != "zero-keys" && !strings.HasPrefix(kinds[i], "list-request-settings")
 		if ok {
 			lines = out.dump.Lines
 			res.Count("compiled_ok")
 			if malformed {
-				res.Fail(vh.Failure{Case: caseNo, Stream: "entity", Sig: "C17 malformed entity (" + kinds[i] + ") accepted", Clause: "walker rejects unknown default status / duplicate summary", Input: in, Got: "compiled"})
+				res.Fail(vh.Failure{Case: caseNo, Stream: "entity", Sig: "C17 malformed entity (" + kinds[i] + ") accepted", Clause: "the compiler rejects a declaration whose expansion cannot be linked / the walker rejects unknown default status, duplicate summary", Input: in, Got: "compiled"})
 			} else if len(d.Ents) == 1 {
 				oracleC17(res, caseNo, d.Ents[0], out.dump, in)
 			}
 		} else {
+			errc = errClassNum(out.err)
 			res.Count("compiled_err")
-			if !malformed {
-				// an admissible declaration must compile (closedness of the expansion)
+			res.Count("err_class_" + errClass(out.err))
+			if malformed && errc != wantClass {
+				res.Fail(vh.Failure{Case: caseNo, Stream: "entity", Sig: "C17 malformed entity (" + kinds[i] + ") rejected with an unexpected error class", Clause: "error class of a rejected declaration", Input: in, Got: out.err.Error()})
+			}
+			if inQuant {
+				// a declaration inside the quantifier must compile: every name the user chose is
+				// legitimate on its own (distinct per scope), so a failure is the expansion's
 				sig := "C17 admissible entity fails to compile: " + errClass(out.err)
-				if strings.Contains(out.err.Error(), "not found") && endsCap(d.Ents[0].Name) {
+				switch {
+				case strings.Contains(out.err.Error(), "not found") && endsCap(d.Ents[0].Name):
 					sig = "C17 entity name ending in a capital fails to compile: type <Name>State/Event/EventType not found (entity.go naming)"
+				case errc == 6 && anyEnt(d, (*entityDecl).pathKeyReserved):
+					sig = "C17 primary/shard key named page or query collides with the pagination field acceptQuery adds to the List/Events request: link error symbol already defined"
+				case errc == 6 && anyEnt(d, (*entityDecl).namedLikeResponseField):
+					sig = "C17 entity named page (or events with eventsInGet) collides with the page (events) property next to the entity's own property in the generated List (Get) response: link error symbol already defined"
+				case errc == 6 && anyEnt(d, (*entityDecl).eventNamedType):
+					sig = "C17 event whose oneof option is named type collides with the proto oneof type of the EventType wrapper: link error symbol already defined"
+				case errc == 6 && anyEnt(d, (*entityDecl).summaryUpsert):
+					sig = "C17 summary field named upsert collides with the metadata field acceptSummaryTopics prepends: link error symbol already defined"
 				}
-				res.Fail(vh.Failure{Case: caseNo, Stream: "entity", Sig: sig, Clause: "every internal reference of the expansion resolves", Input: in, Got: out.err.Error()})
+				res.Fail(vh.Failure{Case: caseNo, Stream: "entity", Sig: sig, Clause: "each entity declaration yields ... a query service with Get, List and Events methods ... one upsert topic per summary", Input: in, Got: out.err.Error()})
 			}
 		}
 		// second observable: the client API's StateEntity, derived by the real j5client
@@ -602,7 +932,7 @@ func runC17(cfg *vh.Config) error {
 		for k, l := range clines {
 			clineTerms[k] = l.coq()
 		}
-		cf.Terms = append(cf.Terms, fmt.Sprintf("EC %s %s [%s] %s [%s]", d.coq(), vh.BoolTerm(ok), strings.Join(lineTerms, ";\n    "), vh.BoolTerm(cok), strings.Join(clineTerms, ";\n    ")))
+		cf.Terms = append(cf.Terms, fmt.Sprintf("EC %s %s %d [%s] %s [%s]", d.coq(), vh.BoolTerm(ok), errc, strings.Join(lineTerms, ";\n    "), vh.BoolTerm(cok), strings.Join(clineTerms, ";\n    ")))
 		impl := map[string]any{"ok": ok, "lines": len(lines), "client_ok": cok, "client_lines": len(clines)}
 		if !ok {
 			impl["err"] = errClass(out.err)
@@ -630,7 +960,7 @@ func runC17(cfg *vh.Config) error {
 		Type:   "strcase_case",
 		Check:  "strcase_check",
 	}
-	scf.Terms = strcaseStream(cfg, r.Fork("strcase"), res, cfg.Scale(1000, 20000), &caseNo, distinct)
+	scf.Terms = strcaseStream(cfg, r.Fork("strcase"), res, cfg.Scale(800, 15000), &caseNo, distinct)
 	// entity names used above are strcase inputs too
 	scShards, err := scf.WriteShards(cfg.Out, "sc", strcaseShard)
 	if err != nil {
@@ -646,6 +976,74 @@ func runC17(cfg *vh.Config) error {
 	return res.Write(cfg.Out)
 }
 
+func anyEnt(f *fileDecl, p func(*entityDecl) bool) bool {
+	for _, e := range f.Ents {
+		if p(e) {
+			return true
+		}
+	}
+	return false
+}
+
+// pathKeyReserved: a key that goes into the Get/Events (primary or shard) or List (shard) request and
+// whose proto name is one of the pagination fields acceptQuery appends to those requests.
+func (d *entityDecl) pathKeyReserved() bool {
+	for _, k := range d.Keys {
+		if k.Key && (k.Primary || k.Shard) {
+			if n := strcase.ToSnake(k.Name); n == "page" || n == "query" {
+				return true
+			}
+		}
+	}
+	return false
+}
+
+func (d *entityDecl) namedLikeResponseField() bool {
+	n := strcase.ToSnake(strcase.ToLowerCamel(strcase.ToSnake(d.Name)))
+	return n == "page" || (n == "events" && d.Query != nil && d.Query.EventsInGet)
+}
+
+func (d *entityDecl) eventNamedType() bool {
+	for _, ev := range d.Events {
+		if strcase.ToSnake(strcase.ToLowerCamel(ev.Name)) == "type" {
+			return true
+		}
+	}
+	return false
+}
+
+func (d *entityDecl) summaryUpsert() bool {
+	for _, s := range d.Summaries {
+		for _, f := range s.Fields {
+			if strcase.ToSnake(f.Name) == "upsert" {
+				return true
+			}
+		}
+	}
+	return false
+}
+
+// errClassNum mirrors Entity.err_class (coq/model/Entity.v).
+func errClassNum(err error) int {
+	switch errClass(err) {
+	case "status not found in entity":
+		return 1
+	case "duplicate summary name":
+		return 2
+	case "type not found":
+		return 3
+	case "required and optional":
+		return 4
+	case "missing field in request":
+		return 5
+	case "name conflict":
+		return 6
+	case "value is required":
+		return 7
+	}
+	return 99
+}
+
 func endsCap(s string) bool {
 	return s != "" && s[len(s)-1] >= 'A' && s[len(s)-1] <= 'Z'
 }
@@ -657,17 +1055,23 @@ func errClass(err error) string {
 		return "required and optional"
 	case strings.Contains(s, "missing field") && strings.Contains(s, "in request"):
 		return "missing field in request"
+	case strings.Contains(s, "value is required"):
+		return "value is required"
 	case strings.Contains(s, "not found in entity"):
 		return "status not found in entity"
 	case strings.Contains(s, "duplicate summary"):
 		return "duplicate summary name"
+	case strings.Contains(s, "belongs in a oneof and must be optional") || strings.Contains(s, "must be declared before synthetic oneofs"):
+		return "proto3-optional repeated field (optional array or map)"
+	case strings.Contains(s, "using open semantics has conflict"):
+		return "enum values that differ only in case"
 	case strings.Contains(s, "must contain at least one field declaration"):
 		return "proto oneof without members"
 	case strings.Contains(s, "unknown enum value"):
 		return "unknown enum value"
 	case strings.Contains(s, "not found"):
 		return "type not found"
-	case strings.Contains(s, "already defined") || strings.Contains(s, "duplicate") || strings.Contains(s, "conflict"):
+	case strings.Contains(s, "already defined"):
 		return "name conflict"
 	}
 	if len(s) > 80 {
@@ -758,7 +1162,7 @@ func oracleC17(res *vh.Result, caseNo int, d *entityDecl, dump *dumped, in any) 
 			fail("C17 status enum does not start with UNSPECIFIED = 0", "statuses are numbered in declaration order after UNSPECIFIED", fmt.Sprint(vals))
 		}
 		decl := d.Status
-		if len(decl) > 0 && strings.HasSuffix(decl[0], "UNSPECIFIED") {
+		if len(decl) > 0 && strings.HasSuffix(decl[0], "UNSPECIFIED") && (len(d.StatusNum) == 0 || d.StatusNum[0] == 0) {
 			decl = decl[1:]
 		}
 		if len(vals) != len(decl)+1 {
@@ -792,6 +1196,33 @@ func oracleC17(res *vh.Result, caseNo int, d *entityDecl, dump *dumped, in any) 
 	}
 	shape(X+"State", [][2]string{{"metadata", "j5.state.v1.StateMetadata"}, {"keys", d.Pkg + "." + X + "Keys"}, {"data", d.Pkg + "." + X + "Data"}, {"status", d.Pkg + "." + X + "Status"}}, 1)
 	shape(X+"Event", [][2]string{{"metadata", "j5.state.v1.EventMetadata"}, {"keys", d.Pkg + "." + X + "Keys"}, {"event", d.Pkg + "." + X + "EventType"}}, 1)
+	// State / Event as JSON objects: the flattened keys sit next to the message's own properties,
+	// so the property names of the whole object must be distinct
+	for _, part := range []string{"State", "Event"} {
+		var names []string
+		for _, l := range lines[d.Pkg+"."+X+part] {
+			if l.Tag != 2 {
+				continue
+			}
+			if l.Nums[4] == 1 {
+				for _, kl := range lines[l.Strs[2]] {
+					if kl.Tag == 2 {
+						names = append(names, kl.Strs[1])
+					}
+				}
+			} else {
+				names = append(names, l.Strs[1])
+			}
+		}
+		seen := map[string]bool{}
+		for _, n := range names {
+			if seen[n] {
+				fail("C17 key named like a property of "+part+" is flattened next to it: two JSON properties of one name", "State and Event hold metadata plus the flattened keys (and data/status, or the event oneof): a consistent object", part+"."+n)
+				break
+			}
+			seen[n] = true
+		}
+	}
 	// event oneof <-> events
 	if et := findMsg(main, X+"EventType"); et != nil {
 		if len(et.Field) != len(d.Events) || len(et.NestedType) != len(d.Events) {
@@ -883,6 +1314,98 @@ func oracleC17(res *vh.Result, caseNo int, d *entityDecl, dump *dumped, in any) 
 		if len(getP) != len(primaries)+len(shardOnly) {
 			fail("C17 Get path has parameters that are neither primary nor shard keys", "path parameters of Get", ql[1].Strs[3])
 		}
+	}
+	// the Get and Events requests hold every path key; a primary key is required there too
+	if query != nil && len(query.Method) == 3 {
+		for _, mi := range []int{0, 2} {
+			req := strings.TrimPrefix(query.Method[mi].GetInputType(), ".")
+			have := map[string]line{}
+			for _, l := range lines[req] {
+				if l.Tag == 2 {
+					have[l.Strs[0]] = l
+				}
+			}
+			for _, k := range d.Keys {
+				if !k.Key || !(k.Primary || k.Shard) {
+					continue
+				}
+				l, ok := have[strcase.ToSnake(k.Name)]
+				if !ok {
+					fail("C17 path key missing from the Get/Events request", "primary-key fields ... appear ... as the path parameters of Get and Events", req+"."+k.Name)
+				} else if k.Primary && l.Nums[3] != 1 {
+					fail("C17 primary key not required in the Get/Events request", "primary-key fields are required", req+"."+k.Name)
+				}
+			}
+		}
+	}
+	// every declared command service, with the declared methods
+	ci := 0
+	for _, s := range svc.Service {
+		sl := svcLines(svc.GetPackage(), 1, s)
+		if sl[0].Nums[1] != 2 {
+			continue
+		}
+		if ci < len(d.Commands) {
+			var want, got []string
+			for _, m := range d.Commands[ci].Methods {
+				want = append(want, m.Name+":"+fmt.Sprint(m.Verb))
+			}
+			for _, ml := range sl[1:] {
+				got = append(got, ml.Strs[0]+":"+fmt.Sprint(ml.Nums[0]))
+			}
+			if strings.Join(want, ",") != strings.Join(got, ",") {
+				fail("C17 command service methods differ from the declaration", "every declared command service", strings.Join(got, ","))
+			}
+		}
+		ci++
+	}
+	// the nested event messages hold the declared fields, in order
+	if et := findMsg(main, X+"EventType"); et != nil && len(et.NestedType) == len(d.Events) {
+		for i, ev := range d.Events {
+			var want, got []string
+			for _, f := range ev.Fields {
+				want = append(want, strcase.ToSnake(f.Name))
+			}
+			for _, f := range et.NestedType[i].Field {
+				got = append(got, f.GetName())
+			}
+			if strings.Join(want, ",") != strings.Join(got, ",") {
+				fail("C17 nested event message does not hold the declared fields", "0..n events with arbitrary fields / a nested message of that name", ev.Name+": "+strings.Join(got, ","))
+			}
+		}
+	}
+	// status values carry the prefix SCREAMING_SNAKE(entity)_STATUS_
+	if statusEnum != nil {
+		prefix := strcase.ToScreamingSnake(d.Name) + "_STATUS_"
+		for _, v := range statusEnum.Value {
+			if !strings.HasPrefix(v.GetName(), prefix) {
+				fail("C17 status value without the entity's status prefix", "statuses ... named from the entity name", v.GetName())
+			}
+		}
+	}
+	// each upsert message holds the summary's fields after the upsert metadata
+	upsertMsgs := 0
+	for _, s := range topic.Service {
+		sl := svcLines(topic.GetPackage(), 2, s)
+		if sl[0].Nums[1] != 3 || sl[0].Nums[2] != 3 || len(sl) != 2 {
+			continue
+		}
+		if upsertMsgs < len(d.Summaries) {
+			var got []string
+			for _, l := range lines[sl[1].Strs[1]] {
+				if l.Tag == 2 {
+					got = append(got, l.Strs[0])
+				}
+			}
+			want := []string{"upsert"}
+			for _, f := range d.Summaries[upsertMsgs].Fields {
+				want = append(want, strcase.ToSnake(f.Name))
+			}
+			if strings.Join(want, ",") != strings.Join(got, ",") {
+				fail("C17 upsert message does not hold upsert metadata + the summary's fields", "one upsert topic per summary", sl[1].Strs[1]+": "+strings.Join(got, ","))
+			}
+		}
+		upsertMsgs++
 	}
 	// topics
 	nUpsert, nEvent := 0, 0
@@ -1007,5 +1530,44 @@ func countShape(res *vh.Result, e *entityDecl) {
 	}
 	if e.BaseURL != "" {
 		res.Count("with_base_url_override")
+	}
+	kinds := map[string]bool{}
+	var walk func(fs []uField)
+	walk = func(fs []uField) {
+		for _, f := range fs {
+			switch {
+			case f.Inline != "":
+				kinds["inline_"+f.Inline] = true
+			case f.Container != "":
+				kinds[f.Container] = true
+			case f.Ext != "":
+				kinds["wkt_"+f.J5Type] = true
+			}
+			if f.Optional && f.Container != "" {
+				kinds["optional_container"] = true
+			}
+		}
+	}
+	for _, k := range e.Keys {
+		walk([]uField{k.uField})
+	}
+	walk(e.Data)
+	for _, ev := range e.Events {
+		walk(ev.Fields)
+	}
+	for _, c := range e.Commands {
+		for _, m := range c.Methods {
+			walk(m.Request)
+			walk(m.Response)
+		}
+	}
+	for _, sm := range e.Summaries {
+		walk(sm.Fields)
+	}
+	for _, sc := range e.Schemas {
+		walk(sc.Fields)
+	}
+	for k := range kinds {
+		res.Count("fieldkind_" + k)
 	}
 }
